@@ -161,3 +161,25 @@ def enumerate_named_functions(contexts=("module", "def", "method")):
                                 out.append((src, ("named:" + cname + ":" + f1 + ":" + f2, ctx,
                                                   (o1, p1, 1, f1), (o2, p2, 2, f2))))
     return out
+
+
+def enumerate_closure_reuse():
+    """the same lambda text executed several times with different captured values (loop, helper function,
+    comprehension): every call must record the lambda with the values it has at THAT call"""
+    out = []
+    for op, cmp_ in (("Select", " + "), ("Where", " > ")):
+        for p in PARAMS:
+            body = f"{p}.m1{cmp_}c"
+            stmts = {
+                "loop": f"for c in (1, 2, 3):\n\t    r = ds.{op}(lambda {p}: {body})",
+                "helper": f"def mk(c):\n\t    return ds.{op}(lambda {p}: {body})\n\tr = [mk(1), mk(2), mk(1)][-1]",
+                "listcomp": f"r = [ds.{op}(lambda {p}: {body}) for c in (1, 2)][-1]",
+                "default-arg": f"def mk(c, d=5):\n\t    return ds.{op}(lambda {p}: {body}{cmp_}d)\n\tr = [mk(1), mk(2, 7)][-1]",
+                "two-sites": f"def mk(c):\n\t    return ds.{op}(lambda {p}: {body}).{op}(\n\t        lambda {p}2: {p}2.m2{cmp_}c)\n\tr = [mk(1), mk(2)][-1]",
+            }
+            for shape, stmt in stmts.items():
+                for ctx in ("module", "def", "method"):
+                    src = in_context(stmt, ctx)
+                    if src is not None:
+                        out.append((src, ("closure:" + shape, ctx, (op, p, 1, "one"))))
+    return out
